@@ -4,21 +4,24 @@ import (
 	"fmt"
 	"testing"
 
+	"pgregory.net/rapid"
+
 	"github.com/cosmos/ibc-go/v11/modules/apps/callbacks/verifx/pktsim"
-	"github.com/cosmos/ibc-go/v11/modules/apps/callbacks/verifx/sim"
 )
 
 func TestDbg(t *testing.T) {
-	h := pktsim.History{Links: []int{int(sim.V1Ordered)}}
-	ok := []sim.Script{{N: 1, Out: "ok"}}
-	h.Ops = []pktsim.Op{
-		{K: "send", S: ok}, {K: "send", S: ok}, {K: "send", S: ok},
-		{K: "recvnext", H: -1}, {K: "recvnext", H: -1, N: 1}, {K: "recvnext", H: -1},
-		{K: "acknext", H: -1, N: 1}, {K: "acknext", H: -1}, {K: "acknext", H: -1}, {K: "recvnext", H: -1}, {K: "acknext", H: -1},
-	}
-	w := pktsim.NewWorld(t, h)
-	for i, op := range h.Ops {
-		st := execX(w, i, op)
-		fmt.Printf("%d %s log=%d\n", i, pktsim.Describe(st), len(w.Log)-st.LogStart)
+	g := rapid.Custom(genC02(30))
+	for k := 0; k < 3; k++ {
+		h := g.Example(k + 10)
+		fmt.Printf("=== links %v\n", h.Links)
+		w := pktsim.NewWorld(t, h)
+		for i, op := range h.Ops {
+			st := execX(w, i, op)
+			s := pktsim.Describe(st)
+			if len(s) > 330 {
+				s = s[:330]
+			}
+			fmt.Printf("%d %s %s log=%d\n", i, op.K, s, len(w.Log)-st.LogStart)
+		}
 	}
 }
